@@ -436,12 +436,18 @@ impl Terminal for UnixTerminal {
             // process pending output
             if tty.is_writable() {
                 let tee = self.tee.as_mut();
+                // bytes accepted by the tty are consumed even if copying them to the tee fails,
+                // otherwise they would be sent a second time by the next poll
+                let mut tee_result = Ok(());
                 let send = self.write_queue.consume_with(|slice| {
                     let size = guard_io(self.tty.write(slice), 0)?;
-                    tee.map(|tee| tee.write(&slice[..size])).transpose()?;
+                    if let Some(tee) = tee {
+                        tee_result = tee.write_all(&slice[..size]);
+                    }
                     Ok::<_, Error>(size)
                 })?;
                 self.stats.send += send;
+                tee_result?;
             }
 
             // process signals
